@@ -5,6 +5,8 @@
 //!   vmon list
 mod engines;
 mod gen;
+mod likely;
+mod model;
 mod mon;
 mod obs;
 mod refspec;
@@ -76,8 +78,24 @@ fn main() {
             println!("{}", json!({"engine": name, "input": mon::bytes_json(&bytes), "fails": out}));
             std::process::exit(if fails.is_empty() { 0 } else { 1 });
         }
+        Some("replay-json") => {
+            let name = args.get(2).expect("engine name");
+            let e = engines.iter().find(|e| e.name == *name).unwrap_or_else(|| {
+                eprintln!("unknown engine {}", name);
+                std::process::exit(2)
+            });
+            let Some(f) = e.replay_json else {
+                eprintln!("engine {} has no structured replay", name);
+                std::process::exit(2)
+            };
+            let v: serde_json::Value = serde_json::from_str(args.get(3).expect("json")).expect("valid json");
+            let fails = f(&v);
+            let out: Vec<_> = fails.iter().map(|f| json!({"clause": f.clause, "detail": f.detail})).collect();
+            println!("{}", json!({"engine": name, "witness": v, "fails": out}));
+            std::process::exit(if fails.is_empty() { 0 } else { 1 });
+        }
         _ => {
-            eprintln!("usage: vmon run|replay|list ...");
+            eprintln!("usage: vmon run|replay|replay-json|list ...");
             std::process::exit(2);
         }
     }
